@@ -70,6 +70,9 @@ def gen_cases(ctx):
         # a reset (after a partial or complete episode) followed by another episode
         c["episodes"] = rng.choice([1, 1, 2, 3])
         c["abandon"] = rng.random() < 0.5
+        # a second dispatcher for the same instance object with the same kinds of observers,
+        # following its own history in between
+        c["sibling"] = rng.random() < 0.15
         if mode == "single":
             t = TYPES[i % 7]
             sup = SUPPORTED.get(t, FT)
@@ -325,19 +328,45 @@ def run_history(ctx, case):
             check_composite(ctx, outer, outer_parts, "nested initial")
     clock_after_dispatch = {}   # op -> reference clock right after its own dispatch
 
-    def step_info(name, ft, ent):
-        info = {}
-        if name == "DurationObserver" and ft == "operations" and ent in r.start:
-            c0 = clock_after_dispatch.get(ent)
-            info["op_start"], info["op_end"] = r.start[ent], r.end[ent]
-            info["clock_after_own_dispatch"] = c0
-            if c0 is not None:
-                info["frozen_model_value"] = float(r.end[ent] - max(r.start[ent], c0))
-        return info
+    def make_step_info(rr, clocks):
+        def step_info(name, ft, ent):
+            info = {}
+            if name == "DurationObserver" and ft == "operations" and ent in rr.start:
+                c0 = clocks.get(ent)
+                info["op_start"], info["op_end"] = rr.start[ent], rr.end[ent]
+                info["clock_after_own_dispatch"] = c0
+                if c0 is not None:
+                    info["frozen_model_value"] = float(rr.end[ent] - max(rr.start[ent], c0))
+            return info
+        return step_info
+    step_info = make_step_info(r, clock_after_dispatch)
 
     def state():
         now = r.current_time(run.filter_names) if run.exact_filters else None
         return now, (r.available(run.filter_names) if run.exact_filters else None)
+
+    sib = None
+    if case.get("sibling") and not case.get("huge") and not case.get("history"):
+        sib = Run(case["instance"], case.get("filter"), instance=run.instance)
+        sib_observers = []
+        for spec in case["observers"]:
+            try:
+                sib_observers.append(make_observer(sib.d, spec))
+            except Exception:
+                pass    # reported for the first dispatcher already
+        ctx.count("histories_with_a_sibling_dispatcher")
+
+    sib_clocks = {}
+
+    def sibling_step():
+        if sib.done():
+            sib.d.reset(); sib.r.reset(); sib_clocks.clear()
+        o9, m9 = sib.choose(rng, rng.choice(gen.POLICIES))
+        sib.dispatch(o9, m9)
+        now9 = sib.r.current_time(sib.filter_names) if sib.exact_filters else None
+        avail9 = sib.r.available(sib.filter_names) if sib.exact_filters else None
+        sib_clocks[o9] = now9
+        return compare(ctx, sib, sib_observers, now9, avail9, make_step_info(sib.r, sib_clocks))
 
     now, avail = state()
     ok = compare(ctx, run, observers, now, avail, step_info)
@@ -354,6 +383,8 @@ def run_history(ctx, case):
             if comp is not None:
                 check_composite(ctx, comp, parts, "after reset")
             continue
+        if sib is not None and not sibling_step():
+            break
         pol = case["policy"]
         if case.get("history"):
             o, m = case["history"][len(r.history)]
